@@ -43,6 +43,71 @@ HEADER = COQ_HEADER + ('From FpyV Require Import Num.Out Analysis.ClassLattice A
 
 KEY_FOR_SHADOW = 'for-target-rebinds-variable'
 KEY_STALE_COND = 'partial-eval-stale-while-condition'
+KEY_SIGNED_ZERO = 'partial-eval-merges-signed-zeros'
+
+
+# Witness programs (always run first): one per listed defect, one plain ladder.
+CORPUS = [
+    ('''import fpy2 as fp
+
+@fp.fpy
+def main(xs, x):
+    x = 1
+    for x in xs:
+        pass
+    return x
+''', [[[N.fin(2), N.nan()], N.fin(5)], [[], N.fin(3)]]),
+    ('''import fpy2 as fp
+
+@fp.fpy(ctx=fp.REAL)
+def main(n):
+    x = 0
+    a = 0
+    while a < 2:
+        y = x
+        j = 0
+        while y < 1 and j < 2:
+            y = y * 1
+            j = j + 1
+        x = x + 1
+        a = a + 1
+    return x
+''', [[N.fin(1)], [N.nan()]]),
+    ('''import fpy2 as fp
+
+@fp.fpy
+def main(x, y):
+    with fp.REAL:
+        z = x * 0
+        if fp.isnan(x):
+            r = 1
+        elif fp.isinf(x):
+            r = 2
+        elif x == 0:
+            r = 3
+        else:
+            r = x + 1
+    t = min(r, 5)
+    i = 0
+    acc = y
+    while i < 3:
+        acc = acc + z
+        i = i + 1
+    return acc * t
+''', [[N.fin(1), N.fin(2)], [N.nan(), N.fin(1)], [N.inf(), N.fin(0)], [N.fin(0, negzero=True), N.inf(True)]]),
+    ('''import fpy2 as fp
+
+@fp.fpy(ctx=fp.REAL)
+def main(x0, x1):
+    c1 = 0
+    acc = c1 * 2
+    i = 0
+    while i < 3 and fp.isnan(x1):
+        acc = -c1
+        i = i + 1
+    return 1 / acc
+''', [[N.fin(0), N.nan()], [N.fin(0), N.fin(1)]]),
+]
 
 
 class _Timeout(Exception):
@@ -79,6 +144,36 @@ def shadowed_for_targets(fd, du):
                     block(c)
     block(fd.body)
     return out
+
+
+def arg_json(a):
+    if isinstance(a, list):
+        return [arg_json(x) for x in a]
+    return {'kind': a.kind, 's': a.s, 'q': None if a.q is None else str(a.q)}
+
+
+def arg_of_json(j):
+    from fractions import Fraction
+    if isinstance(j, list):
+        return [arg_of_json(x) for x in j]
+    return N(j['kind'], j['s'], None if j['q'] is None else Fraction(j['q']))
+
+
+def replay(ck):
+    """Re-run one stored case: the program, the analyses, the traced run on the stored arguments."""
+    import json
+    obj = json.loads(open(ck.replay).read())
+    r = obj.get('replay', {})
+    if 'program' not in r or 'args_json' not in r:
+        ck.log('this replay file names a proof obligation / checker verdict, not an input; run the full check')
+        return
+    mod = lang.load_module(ck.dir / 'progs', 'c13_replay', r['program'])
+    args = [arg_of_json(a) for a in r['args_json']]
+    caller = None
+    if r.get('caller_ctx'):
+        import fpy2 as fp
+        caller = type('C', (), {'obj': staticmethod(lambda: eval(r['caller_ctx'], {'fp': fp})), 'py': staticmethod(lambda: r['caller_ctx'])})  # noqa: S307
+    analyse_and_trace(ck, mod.main, r['program'], [args], [caller], 'replay')
 
 
 def outcome_term(out):
@@ -134,12 +229,36 @@ def nested_while_cond_nodes(fd):
     return out
 
 
-def classify(b, shadow, stale_nodes):
+def has_signed_zero_phi(F):
+    """Does PartialEval hold +0 for one operand of a phi and -0 for the other?"""
+    if F.pe is None:
+        return False
+
+    def zero_sign(d):
+        v = F.pe.by_def.get(d)
+        if v is None or isinstance(v, bool):
+            return None
+        try:
+            n = N.of(v)
+        except TypeError:
+            return None
+        return n.s if (n.kind == 'fin' and n.q == 0) else None
+    for phis in F.du.phis.values():
+        for phi in phis:
+            a, b = zero_sign(F.du.defs[phi.lhs]), zero_sign(F.du.defs[phi.rhs])
+            if a is not None and b is not None and a != b:
+                return True
+    return False
+
+
+def classify(b, shadow, stale_nodes, signed_zero=False):
     """The known-finding key of a traced fact violation, or None."""
     node = b['node']
     first = node.split(' ')[0] if node else ''
     if b['analysis'].startswith('partial_eval') and id(b.get('obj')) in stale_nodes:
         return KEY_STALE_COND
+    if b['analysis'].startswith('partial_eval') and signed_zero:
+        return KEY_SIGNED_ZERO
     if shadow and (node in shadow or first in shadow or b.get('var') in shadow):
         return KEY_FOR_SHADOW
     return None
@@ -150,10 +269,12 @@ def analyse_and_trace(ck, fn, prog_src, arg_sets, callers, info):
     from ..c13lib import same_value
     F = Facts(fn)
     for name, err in F.errors.items():
-        ck.count(f'analysis-raised:{name}')
+        ck.count(f'analysis-raised:{name}:{err.split(":")[0]}')
     shadow = shadowed_for_targets(fn.ast, F.du)
     stale_nodes = nested_while_cond_nodes(fn.ast)
+    signed_zero = has_signed_zero_phi(F)
     known_keys = set()
+    seen_bad = set()
     pyfn, rec, _ = compile_traced(fn, F.du)
     runs = []
     for args, caller in zip(arg_sets, callers):
@@ -179,11 +300,17 @@ def analyse_and_trace(ck, fn, prog_src, arg_sets, callers, info):
         ck.count('run:' + out[0] + ('' if out[0] == 'ok' else ':' + type(out[1]).__name__))
         ck.count('events', len(events))
         for b in check_trace(F, events):
-            key = classify(b, shadow, stale_nodes)
+            sig_b = (b['analysis'], b['node'])
+            if sig_b in seen_bad or len(seen_bad) >= 25:
+                ck.count('fact-violated(repeats not reported):' + b['analysis'])
+                continue
+            seen_bad.add(sig_b)
+            key = classify(b, shadow, stale_nodes, signed_zero)
             known_keys.add(key)
             ck.count('fact-violated:' + b['analysis'])
             ck.violation(f"{b['analysis']}: {b['what']}",
-                         {'program': prog_src, 'args': [repr(a) for a in args], 'caller_ctx': None if caller is None else caller.py(),
+                         {'program': prog_src, 'args': [repr(a) for a in args], 'args_json': [arg_json(a) for a in args],
+                          'caller_ctx': None if caller is None else caller.py(),
                           'expression_or_definition': b['node'], 'reported_fact': b['fact'], 'observed_value': b['observed'],
                           'note': 'observed on the real interpreter (harness/c13trace.py); replay: load the program, run the analysis, call main(*args)'},
                          key=key)
@@ -204,6 +331,12 @@ def run(ck):
     ck.assumptions += ['class theorem: for every number instance satisfying NumClassSpec (proved for the instance used in the tie); '
                        'arguments in the classes reported for the parameters',
                        'opaque leaves (list / tuple / call expressions) carry no proved inner facts']
+    if ck.replay:
+        replay(ck)
+        return
+    from ..common import EVID
+    for old in (EVID / 'replays').glob('C13-*.json'):      # replays of earlier runs of this check
+        old.unlink()
     ok, _ = ck.build_static(['Props/C13.v', 'Cases/C13Cases.v'])
     if ok:
         ck.props('Props/C13.v')
@@ -220,15 +353,20 @@ def run(ck):
                      '(or representable_classes omits a class the context can produce)', {'entry': tabs[i]})
 
     # ---- (1)+(2) generated programs
-    nprog = 900 if thorough else 120
+    nprog = 600 if thorough else 120
     nargs = 8 if thorough else 4
     cases, info = [], []
     t0 = time.time()
     rejected = 0
-    for idx in range(nprog):
+    for idx in range(-len(CORPUS), nprog):
         rng = Rng(ck.seed, f'c13-{idx}')
-        use_langgen = (idx % 5 == 4)
-        if use_langgen:
+        use_langgen = (idx >= 0 and idx % 5 == 4)
+        g = sig = None
+        if idx < 0:
+            text, arg_sets = CORPUS[idx + len(CORPUS)]
+            prog = type('CorpusProgram', (), {'load': staticmethod(lambda d, m, text=text: lang.load_module(d, m, text)),
+                                              'source': staticmethod(lambda m='m', text=text: text)})
+        elif use_langgen:
             g = ProgGen(rng, malformed=False)
             prog, sig = g.program()
             arg_sets = [g.args(sig, p_special=(0.0 if j == 0 else 0.3)) for j in range(nargs)]
@@ -236,8 +374,8 @@ def run(ck):
             g = Gen13(rng)
             prog, sig = g.program()
             arg_sets = [g.args(sig, special=(0.0 if j == 0 else 0.35)) for j in range(nargs)]
-        callers = [None if j % 2 == 0 else small_ctx(rng) for j in range(nargs)]
-        modname = f'c13_prog_{idx:05d}'
+        callers = [None if j % 2 == 0 else small_ctx(rng) for j in range(len(arg_sets))]
+        modname = f'c13_prog_{idx:05d}' if idx >= 0 else f'c13_corpus_{idx + len(CORPUS)}'
         try:
             mod = prog.load(ck.dir / 'progs', modname)
         except Exception as e:  # noqa: BLE001
@@ -287,7 +425,7 @@ def run(ck):
             except Unsupported:
                 ck.count('export:value-outside-model')
         cases.append(f'({P}, {term}, {clist(rterms)})')
-        info.append((idx, src, shadow, known_keys))
+        info.append((idx, src, shadow, known_keys, fn, g, sig, use_langgen))
     ck.log(f'{len(cases)} programs analysed, traced and exported in {time.time() - t0:.1f}s ({rejected} rejected)')
     if rejected > nprog // 10:
         ck.broken.append(f'generator: {rejected} of {nprog} generated programs were rejected by the fpy2 front end')
@@ -303,9 +441,17 @@ def run(ck):
     ck.count('const-facts:reported-in-fragment', stats[0])
     ck.count('const-facts:certified-by-the-proved-checker', stats[1])
     ck.extra['const_facts_checked_by_tracing_not_proved'] = stats[0] - stats[1]
+    ck.extra['checked_by_tracing_not_proved'] = [
+        'type_infer: shapes of expression / definition values (by_expr, by_def)',
+        'array_size: static lengths and equal-length classes',
+        'alias: names sharing a list object are in one reported region (list-typed definitions)',
+        'partial_eval.by_def and every constant fact outside the pure scalar fragment (lists, tuples, list indexing)',
+        'every fact of an expression inside an opaque leaf (list / tuple / call / comprehension expressions)',
+        'value_class facts that depend on logb / pow rules or on contexts the number instance does not implement',
+    ]
     ndiag = 0
     for i, verdict in bad:
-        idx, src, shadow, known_keys = info[i]
+        idx, src, shadow, known_keys, fn, g, sig, use_langgen = info[i]
         names = ('class', 'reach', 'const', 'dynamic')
         failed = [n for n, ch in zip(names, verdict) if ch != '1']
         static_ok = all(n == 'dynamic' for n in failed)
@@ -314,6 +460,15 @@ def run(ck):
         if ndiag < 6:
             ndiag += 1
             out = ck.coq_eval_raw(HEADER, f'diag13 {cases[i]}', name=f'diag_{idx:05d}', timeout=600)
+        # the checker rejects but no traced run of this program violated a fact so far: search more inputs
+        if not static_ok and not known_keys and g is not None:
+            before = len(ck.violations) + sum(ck.known_hits.values())
+            extra = [g.args(sig, p_special=0.6) if use_langgen else g.args(sig, special=0.6) for _ in range(24)]
+            _, _, _, found = analyse_and_trace(ck, fn, src, extra, [None] * len(extra), f'program {idx} (search)')
+            ck.count('search:extra-runs', len(extra))
+            if len(ck.violations) + sum(ck.known_hits.values()) > before:
+                ck.count('search:failing-input-found')
+                known_keys = found
         # a program whose traced runs violate facts only through a listed defect: the checkers reject it for that reason
         key = None
         if known_keys and len(known_keys) == 1:
@@ -325,7 +480,7 @@ def run(ck):
                      'the instrumented model execution disagrees with fpy2 or one of its events violates a reported fact',
                      {'program_index': idx, 'program': src, 'failed': failed,
                       'diag ((class, reach, const) static verdicts; per run: outcome agrees, (class, reach, const) claims hold on the model trace, model outcome)': out[-2500:]},
-                     key=key, no_input=(not static_ok and key is None))
+                     key=key, no_input=(not static_ok and key is None and not known_keys))
 
 
 def eval_cases(ck, cases, chunk=None, timeout=1500, jobs=16):
